@@ -188,7 +188,19 @@ def probe_runs(ctx, r, quick):
             rounds = 40 if quick else (2000 if wi < 3 else 200)
             threads = 3 if threaded else 1
             script = "".join("b %d %d\n" % it for it in items) + "order %d\nrounds %d\nthreads %d\ngo\n" % (order, rounds, threads)
-            p = subprocess.run([exe], input=script, stdout=subprocess.PIPE, stderr=subprocess.PIPE, text=True, timeout=3000)
+            p = None
+            for attempt in range(2):       # a hang is retried once (seen once, with a thread/join state another check owns)
+                try:
+                    p = subprocess.run([exe], input=script, stdout=subprocess.PIPE, stderr=subprocess.PIPE, text=True,
+                                       timeout=120 if quick else 900)
+                    break
+                except subprocess.TimeoutExpired:
+                    ctx.hist("probe_hangs", "threaded" if threaded else "single")
+            if p is None:
+                ctx.violation({"kind": "probe-hung", "threaded": threaded},
+                              {"why": "the no-libc probe did not finish twice in a row", "script": script,
+                               "how_to_replay": "feed `script` on stdin to " + exe})
+                continue
             ctx.evaluations += rounds
             lines = [l.split() for l in p.stdout.splitlines()]
             vm = [int(l[2]) * 4096 for l in lines if l and l[0] == "r" and len(l) == 4]
